@@ -283,6 +283,14 @@ func roundTrip(work string, in c18Input) Record {
 	ctx := context.Background()
 	// put through the HTTP client (JSON + base64 on the wire), a second version through the DB API
 	hs.env.d.Put(super, "x", []byte("first"))
+	// a version put through the DB API from a buffer its owner then reuses: copy-in at the boundary
+	side := append(append([]byte("side:"), val...), '!')
+	sideBuf := append([]byte(nil), side...)
+	vSide, err := hs.env.d.Put(super, "x", sideBuf)
+	if err != nil {
+		return fail("db.Put failed: %v", err)
+	}
+	scribble(sideBuf)
 	v, err := cli.Put(ctx, "x", val)
 	if err != nil {
 		return fail("Client.Put failed: %v", err)
@@ -384,8 +392,20 @@ func roundTrip(work string, in c18Input) Record {
 	if x := same("GetVersion after restart", sv.Value); x != nil {
 		return *x
 	}
+	// the version whose input buffer was reused, and a value handed out and then overwritten by its reader
+	for _, h := range []*db.DB{hs.env.d, d2} {
+		sv, err = h.GetVersion(super, "x", vSide)
+		if err != nil || !bytes.Equal(sv.Value, side) {
+			return fail("a version put from a buffer that its owner reused afterwards no longer holds the bytes put (live handle or after restart): %v", err)
+		}
+		scribble(sv.Value)
+		sv, err = h.GetVersion(super, "x", vSide)
+		if err != nil || !bytes.Equal(sv.Value, side) {
+			return fail("overwriting the bytes returned by GetVersion changed what the database serves: %v", err)
+		}
+	}
 	rec.Direct = &DirectVerdict{OK: true, What: "all paths byte-identical"}
-	rec.Obs = map[string]any{"bytes": len(val), "paths": 9}
+	rec.Obs = map[string]any{"bytes": len(val), "paths": 11}
 	return rec
 }
 
